@@ -29,7 +29,9 @@ THEOREMS = [
     "Ural.Props.C12.accessors_string_partial",
     "Ural.Props.C12.fullRoundtripString_false",
     "Ural.Props.C12.splitLaw_of_class",
+    "Ural.Props.C12.splitLaw_bracketed",
     "Ural.Props.C12.relru_fixed_class",
+    "Ural.Props.C12.relru_fixed_caseinv",
     "Ural.Props.C12.accessors_roundtrip",
     "Ural.Props.C12.stems_wellformed_of_split",
 ]
@@ -43,7 +45,8 @@ TABLE_OBLIGATIONS = [
 ]
 RULE = (
     "A case is a URL string with the suffix_aware modes to run it in (both, for the corpus and the grammar). The stream is: the regression corpus (IPv6 with port, "
-    "password without user, ':' and '@' in the path, multi-label suffixes, '|' URLs ...), then the quantifier's grammar (quick: a seeded sample of 12,000 URLs; thorough: "
+    "password without user, ':' and '@' in the path, multi-label suffixes, '|' URLs ...), then all 480 bracketed literals of the family "
+    "{zone id, IPvFuture text} ending with a public suffix x port x userinfo x tail (the class of the fix FX-C12-df640b6), then the quantifier's grammar (quick: a seeded sample of 12,000 URLs; thorough: "
     "all of it) 6 scheme forms x 8 userinfo shapes x 14 host shapes "
     "(names, upper case, multi-label public suffixes, wildcard/exception suffix families, IPv4, "
     "localhost, bracketed IPv6 incl. hex groups, embedded IPv4 and zone id, punycode, non-ASCII, "
@@ -82,22 +85,27 @@ TRUSTED = [
     "split_suffix (public-suffix trie, property C08) is an abstract parameter of the model; the driver uses the answer of the real split_suffix shipped with each case",
 ]
 ASSUMPTIONS = [
-    "C08 clause used as hypothesis (SplitRejoins / SplitRejoinsUrl): when split_suffix(url) is not None its two parts re-join to the lower-cased urlsplit(url).hostname; checked on every in-grammar case of this run (it fails exactly for hosts with a trailing dot, which are outside the suffix-aware reading). The string-level class additionally reads off the real split_suffix answer 'None on a bracketed literal' (true for pure IPv6 by is_special_host — proved —, for embedded IPv4 because no public suffix is a number; false for zone ids / IPvFuture texts ending with a public suffix: KF-C12-1)",
-    "reading: the suffix-aware clause is demanded for hosts without empty label (DESIGN D35) and without '%'; userinfo/host without raw '@', port without ':' (the grammar); empty and absent user/password identified",
+    "C08 clause used as hypothesis (SplitRejoins / SplitRejoinsUrl): when split_suffix(url) is not None its two parts re-join to the lower-cased urlsplit(url).hostname; checked on every in-grammar case of this run (it fails exactly for hosts with a trailing dot, which are outside the suffix-aware reading). Nothing is assumed about split_suffix on a bracketed IP literal: stems.py does not consult it there (fix of the former KF-C12-1), and the theorems do not either (hostSplit, splitLaw_bracketed)",
+    "C08 case clause used as hypothesis (SplitCaseInv / SplitCaseInvUrl = Props.C08.split_case_insensitive at the hostname of u), only for suffix_aware=True and a plain host holding '%' (CPython's .hostname keeps the letter case of what follows a '%', the suffix-aware mode lower-cases the whole host): split_suffix answers the same for the lower-cased hostname; checked by the oracle on every such case of this run",
+    "reading: the suffix-aware clause is demanded for hosts without empty label (DESIGN D35); hosts are compared lower-cased in suffix-aware mode (so a plain host with '%' is inside the reading: the accessor form B.hostname == A.hostname is NOT demanded there, it fails by design of CPython's .hostname); userinfo/host without raw '@', port without ':' (the grammar); empty and absent user/password identified",
 ]
 UNPROVED = (
     "The parser hypothesis is discharged: roundtrip_string_partial / accessors_string_partial / serialization_string are "
-    "about URL STRINGS with the modelled parser in the loop (urlsplit(urlunsplit t) = t is now the theorem "
+    "about URL STRINGS with the modelled parser in the loop (urlsplit(urlunsplit t) = t is the theorem "
     "UrlRoundTrip.urlsplit_urlunsplit20 applied to the components lru_to_url prints). What remains: "
     "(1) the Lean parser is compared with CPython on every case, not proved equal to it; "
     "(2) the round trip is proved on the class inClass = {u : the parser accepts ensure_protocol(u); no '|'; netloc in the "
-    "grammar wfNetloc; a host; no raw '[' ']' in the userinfo; suffix-aware: no '%' in a plain host, split_suffix is None "
-    "on a bracketed literal}. Outside it: no host / netloc outside the grammar / bracketed literal with a suffix really fail "
-    "(fullRoundtripString_false, examples, KF-C12-1); a malformed authority raises ValueError; for a raw bracket in the "
-    "userinfo (needs the bracket check of urlsplit to survive the removal of an empty password) and '%' in a plain "
-    "suffix-aware host (needs split_suffix(h) = split_suffix(lower h), not part of C08's clause) no failing input is "
-    "known: those two regions are covered by correspondence + oracle only; "
-    "(3) embedded-IPv4 literals are covered at component level (splitLaw_of_class, relru_fixed_class, roundtrip_parts) "
+    "grammar wfNetloc; a host; no raw '[' ']' in the userinfo} — one class for both modes, split_suffix is not consulted: "
+    "EVERY bracketed literal is inside it (pure IPv6, zone id, IPvFuture, whatever public suffix its text ends with — the "
+    "former KF-C12-1 witnesses now round-trip, Lean examples), and so are plain hosts with '%' (suffix-aware: given C08's "
+    "case clause SplitCaseInvUrl, which is Props.C08.split_case_insensitive at the hostname of u). Outside the class: no host / "
+    "netloc outside the grammar really fail (fullRoundtripString_false, examples); a malformed authority raises ValueError; "
+    "a raw bracket in the userinfo: no failing input known, the proof would need the bracket check of urlsplit to survive "
+    "the removal of an empty password (IPvFuture / zone texts holding ':@') — covered by correspondence + oracle only. "
+    "accessors_string_partial (the statement in CPython's vocabulary, B.hostname == A.hostname) has the extra hypothesis "
+    "'suffix-aware: no % in a plain host', and really fails without it (example: http://a%B.com/ comes back as "
+    "http://a%b.com/; .hostname does not lower-case after '%'); "
+    "(3) embedded-IPv4 literals are covered at component level (splitRejoins_of_c08, relru_fixed, roundtrip_parts) "
     "but not at string level: the parser model rejects them (stated restriction of Py/UrlSplit.lean)"
 )
 
@@ -125,14 +133,17 @@ CORPUS = [
     # D34 (fixed by 915ddc4): bracketed IPv6 hosts
     "http://[2001:db8::1]:8080/x", "http://[::1]/", "http://u:p@[::1]:80/", "http://[2001:db8::1]/x",
     "http://[::ffff:1.2.3.4]:8/a", "http://[fe80::1%25eth0]:22/", "http://[FE80::A]/", "http://[::1]:/",
-    # KF-C12-1: bracketed literal whose zone id / IPvFuture text ends with a public suffix (suffix-aware mode
-    # splits it into domain labels); and the same shapes without a suffix (fine)
+    # FX-C12-df640b6 (formerly KF-C12-1): bracketed literal whose zone id / IPvFuture text ends with a public
+    # suffix (suffix-aware mode used to split it into domain labels); and the same shapes without a suffix
     "http://[::1%a.co.uk]/x", "http://[v1.a.com]/", "http://[FE80::1%Eth0.com]:80/", "http://[fe80::1%eth0]/",
     "http://[v1.x]/p", "http://u:p@[fe80::1%25eth0]:22/a?b#c", "http://[v1.fe80::a+en1]/",
+    "http://U:P@[FE80::1%Eth0.CO.UK]:8080/a//b?q#f", "//[v1.B.city.kawasaki.jp]", "[::1%x.www.ck]:80/p",
     # string-level class boundary: bracket in the userinfo, no host, tab / CR / LF inside, leading blanks
     "http://u[@a.com/", "http://[u]@a.com/", "http://[::1]@a.com/", "http://:[::1]@a.com/p", "http:///x", "http://@/x",
     "http://a.com/a\tb", "ht\ttp://a.com", "  http://a.com/x", "\x00http://a.com", "http://a\n.com/", "HTTP://A.com:80",
     "aaaaaaaaaaaaaaaaaaaaaaaaaaaaaaaaaaaaaaaaaaaaaaaaaaaaaaaaaaaaaaaaa://a.com/x", "a1://b.c/d", "a+b://c.d/e",
+    # '%' in a plain host, suffix-aware: .hostname keeps the case after '%', the mode lower-cases the whole host (C08 case clause)
+    "http://a%B.com/", "http://A%41.Co.UK:80/x", "http://u:p@x%Y.www.ck/a?b#c", "http://%.com/", "http://a%B/",
     # D9: password without user
     "http://:p@a.com/", "http://u:@a.com", "http://@a.com", "http://:@a.com/x",
     # ':' and '@' in path / query / fragment
@@ -194,8 +205,23 @@ def rand_stem(rng):
     return tag + ":" + val
 
 
+# FX-C12-df640b6: bracketed literals (zone id, IPvFuture) whose text ends with a public suffix — enumerated
+BRACKET_LITERALS = ["[::1%%%s]", "[FE80::A%%eth0.%s]", "[v1.%s]", "[vF.x.%s]"]
+BRACKET_SUFFIXES = ["com", "co.uk", "a.co.uk", "CoM", "www.ck", "x.www.ck", "city.kawasaki.jp", "b.kawasaki.jp", "github.io", "fr."]
+BRACKET_FAMILY = [
+    "http://" + auth + lit % sfx + port + tail
+    for lit in BRACKET_LITERALS
+    for sfx in BRACKET_SUFFIXES
+    for port in ["", ":80", ":"]
+    for auth in ["", "u:p@"]
+    for tail in ["", "/x//y?q#f"]
+]
+
+
 def cases(rng, tier):
     for u in CORPUS:
+        yield {"k": "url", "url": u, "sa": [False, True]}
+    for u in BRACKET_FAMILY:
         yield {"k": "url", "url": u, "sa": [False, True]}
     # fixed strings for the splitters / special hosts / urlunsplit
     for s in FIXED_STRS:
@@ -321,16 +347,12 @@ def wf_parts(t):
     return wf_netloc(t[1]) and (t[2] == "" or t[2].startswith("/"))
 
 
-HEX = set("0123456789abcdefABCDEF")
-
-
 def wf_host_sa(netloc):
     sp = spec_hostport(hostport_of(netloc))
     host = sp[0] if sp else ""
     if host.startswith("["):
-        # mirrors the Lean text: r.dropLast of what follows '['
-        inner = host[1:][:-1]
-        return ":" in inner and all(c in HEX or c == ":" for c in inner)
+        # a bracketed literal is never suffix-processed: nothing is demanded
+        return True
     return "%" not in host
 
 
@@ -343,7 +365,8 @@ def expected_tuple(t, sa, split):
     scheme, netloc, path, query, fragment = t
     user, pw = userinfo_of(netloc)
     host, port = spec_hostport(hostport_of(netloc))
-    if sa and split is not None:
+    if sa and split is not None and not host.startswith("["):
+        # a bracketed literal is never suffix-processed, whatever split_suffix finds in its text
         host = ascii_lower(host)
     auth = user + (":" + pw if pw else "")
     n = (auth + "@" if auth else "") + host + (":" + port if port is not None else "")
@@ -418,7 +441,8 @@ def full_url(url):
 def class_reason(A, sa, split):
     """None when A = urlsplit(ensure_protocol(u)) puts u inside the class of the string-level
     theorems (Model/LruUrl.lean: inClass), else the first clause that fails.  Written on the real
-    parser's answer, independently of the Lean text."""
+    parser's answer, independently of the Lean text.  The class is the same for both modes and
+    does not look at split_suffix (`sa`, `split` are unused)."""
     if A is None:
         return "urlsplit-ValueError"
     t = [A[0], A[1], A[2], A[3], A[4]]
@@ -434,12 +458,6 @@ def class_reason(A, sa, split):
     auth = n[:i] if i >= 0 else ""
     if "[" in auth or "]" in auth:
         return "bracket-in-userinfo"
-    if sa:
-        if host.startswith("["):
-            if split is not None:
-                return "bracketed-literal-with-suffix(KF-C12-1)"
-        elif "%" in host:
-            return "percent-in-host"
     return None
 
 
@@ -660,9 +678,27 @@ def in_reading(A, sa):
         # a URL without host is outside the grammar (and CPython's urlunsplit drops an empty
         # netloc in front of a path starting with '//')
         return False
-    if sa and (has_empty_label(host) or ("%" in host and not host.startswith("["))) and host != "":
+    if sa and has_empty_label(host) and host != "":
         return False
     return True
+
+
+def percent_plain(A):
+    """a plain (not bracketed) host holding '%': the region where the suffix-aware theorems use C08's case clause"""
+    sp = spec_hostport(hostport_of(A[1])) if wf_netloc(A[1]) else None
+    return sp is not None and "%" in sp[0] and not sp[0].startswith("[")
+
+
+def case_clause_ok(A, split):
+    """C08's case clause at u (SplitCaseInv): split_suffix answers the same for the lower-cased hostname"""
+    lib.ural()
+    from ural.tld import split_suffix
+
+    try:
+        sp2 = split_suffix(py_urlsplit("//" + ascii_lower(A.hostname or "")))
+    except Exception:  # noqa
+        return True
+    return (None if sp2 is None else [sp2[0], sp2[1]]) == split
 
 
 def oracle(case):
@@ -700,12 +736,15 @@ def oracle_url(url, sa):
         return "serialize_lru(unserialize_lru(lru)) = %r, lru = %r" % (serialize_lru(unserialize_lru(lru)), lru)
     if not in_reading(A, sa):
         return None
-    # assumption on split_suffix (C08): re-joins to the lower-cased hostname
-    if sa and split is not None:
+    # assumption on split_suffix (C08): re-joins to the lower-cased hostname — not for a bracketed literal, on which
+    # split_suffix is not consulted (nothing is assumed about its answer there)
+    if sa and split is not None and not spec_hostport(hostport_of(A[1]))[0].startswith("["):
         d, s = split
         rj = s if d == "" else d + "." + s
         if rj != (A.hostname or "").lower():
             return "assumption (C08): split_suffix parts %r do not re-join to the lower-cased hostname %r" % (split, A.hostname)
+    if sa and percent_plain(A) and not case_clause_ok(A, split):
+        return "assumption (C08 case clause): split_suffix differs on the lower-cased hostname of %r" % (A.hostname,)
     want = raw_components(A)
     if sa:
         want = want[:3] + (want[3].lower(),) + want[4:]
@@ -732,21 +771,6 @@ def oracle_url(url, sa):
         if again != lru:
             return "url_to_lru(lru_to_url(%s(u))) = %r, expected %r (u -> %r)" % (name, again, lru, back)
     return None
-
-
-def kf_bracketed_literal_suffix(case, failure):
-    """KF-C12-1: suffix_aware=True, the host of u is a bracketed IP literal and split_suffix finds a
-    public suffix at the end of its text (zone id `[::1%a.co.uk]`, IPvFuture `[v1.a.com]`): stems.py
-    then emits the literal as domain labels and lru_to_url gives a URL without brackets"""
-    if case.get("k") != "url" or not failure.startswith("suffix_aware=True"):
-        return False
-    pr = cparse(case["url"])
-    if pr is None:
-        return False
-    A, split = pr
-    if split is None or not wf_netloc(A[1]):
-        return False
-    return spec_hostport(hostport_of(A[1]))[0].startswith("[")
 
 
 def nontrivial(case):
@@ -776,8 +800,10 @@ def classify(case):
         r = class_reason(pr[0] if pr else None, sa, pr[1] if pr else None)
         if r is None and om is None:
             # the hypothesis of the suffix-aware theorems (C08's clause at u) holds?
-            if sa and pr[1] is not None and (pr[1][1] if pr[1][0] == "" else pr[1][0] + "." + pr[1][1]) != (pr[0].hostname or "").lower():
+            if sa and pr[1] is not None and not spec_hostport(hostport_of(pr[0][1]))[0].startswith("[") and (pr[1][1] if pr[1][0] == "" else pr[1][0] + "." + pr[1][1]) != (pr[0].hostname or "").lower():
                 labs.append("string-class:inside-but-C08-clause-fails(trailing-dot)/sa=1")
+            elif sa and percent_plain(pr[0]):
+                labs.append("string-class:inside(plain-host-with-percent:C08-case-clause)/sa=1")
             else:
                 labs.append("string-class:inside/sa=%d" % sa)
         elif r is None:
@@ -802,6 +828,9 @@ def classify(case):
         labs.append("port=" + ("absent" if p is None else "empty" if p == "" else "given"))
         if h != h.lower():
             labs.append("host-upper")
+        if h.startswith("[") and split is not None and True in case["sa"]:
+            # the class the fix FX-C12-df640b6 is about: split_suffix finds a suffix in the literal's text
+            labs.append("bracketed-literal-with-public-suffix-text")
     if True in case["sa"]:
         labs.append("split=" + ("none" if split is None else "suffix-only" if split[0] == "" else "%d-label-suffix" % (split[1].count(".") + 1)))
     if "//" in A[2] or A[2].endswith("/"):
